@@ -106,3 +106,8 @@ Definition seq_matches (m : option (float * Z)) (o : option float) : bool :=
   end.
 Definition check_seq (ops : list op) (seen : list (option float)) : bool :=
   all2 seq_matches (run_ops world0 ops) seen.
+
+(* ------------------------------------------------------------------ events object: which sample is locked *)
+(* (interval in ps, [(event time in ps, sample the implementation took the segment from)]) *)
+Definition check_evidx (c : Z * list (Z * Z)) : bool :=
+  forallb (fun p => snd p =? event_sample (fst p) (fst c)) (snd c).
